@@ -398,9 +398,17 @@ impl Directive {
             Directive::Define => {
                 if let DirectiveOps::OpList(values) = &opts {
                     if let Some(Operand::E(Expr::Ident(name))) = values.first() {
-                        context
-                            .common_context
-                            .set_define(name.clone(), Expr::Const(0));
+                        // `#define NAME` is a flag, `#define NAME value` a constant
+                        let value = match values.get(1) {
+                            None => Expr::Const(0),
+                            Some(Operand::E(value)) if values.len() == 2 => value.clone(),
+                            _ => bail!(
+                                "wrong format for .define, expected: {} in {}",
+                                opts,
+                                point,
+                            ),
+                        };
+                        context.common_context.set_define(name.clone(), value);
                     } else {
                         bail!("wrong format for .define, expected: {} in {}", opts, point,);
                     }
